@@ -12,12 +12,24 @@
     utxo        -> {<txid>:<vout>:<value>:<height>:<cb>:<script>}*                     (unsorted)
     getall <idx> <payload>  -> total <value> {<txid>:<vout>:<value>:<height>:<cb>}*    (model GetAllUnspent)
     proj   <idx> <payload>  -> total <sum>   {<txid>:<vout>:<value>:<height>:<cb>}*    (Spec projection)
+    loadb <u|c> <min> <usemapcnt> <abortAt> {<raw record>}*   LoadBalancesFromUtxo over the stored BYTES in this scan
+                            order through the STATIC decoder (Model.BalancesLoad; static buffers persist across requests
+                            and across reset, like the package-level variables); abortAt = n > 0: FetchingBalanceTick answers
+                            true after the n-th record, 0 = never                         -> ok | aborted | panic
+    sdec <u|c> <raw record> -> ok <txid> <height> <cb> <nouts> {<vout> <value> <script>}* | panic   (NewUtxoRecStatic)
+    pdec <u|c> <raw record> -> same with the stateless decoder of C10 (NewUtxoRec)
+    dsave <idx>             -> <n> {<record hex>}*   wallet/disk.go save_map of the model's map of address type idx, one
+                               token per OneAllAddrBal.Save record, entries of a record sorted (Go map order is free)
+    dload <usemapcnt> <idx> <file hex>  -> keep | on 1 {K <idx> <uidx> <value> <ismap> <n> {<key8>:<vout>}* | N <idx> <uidx>}*
+                               (load_map on the file bytes; N = nil record; keep = allBalances[idx] not assigned)
     sip <bytes>             -> <decimal ourHash>
     s2i <script>            -> none | <idx> <uidx> <payload>
 -/
 import GocoinV.Spec.Balances
+import GocoinV.Model.BalancesLoad
+import GocoinV.Model.BalancesDisk
 import GocoinV.Base.Proto
-open GocoinV GocoinV.Model.Balances GocoinV.Spec.Balances
+open GocoinV GocoinV.Model.Balances GocoinV.Spec.Balances GocoinV.Model.BalancesLoad GocoinV.Model.BalancesDisk
 
 def H : Bytes → Nat := ourHash
 
@@ -72,7 +84,19 @@ def parseAddr (idx payload : String) : Option Addr :=
     if i < 5 ∧ p.length = (if i < 3 then 20 else 32) then some { idx := i, payload := p } else none
   | _, _ => none
 
-def step' (s : State) (toks : List String) : State × String :=
+def KO : ScriptCompress.KeyOps := ScriptCompress.mathKeys
+
+def parserOf (f : String) : Option Parser :=
+  if f == "u" then some entU else if f == "c" then some (entC KO) else none
+
+def urecStr (r : URec) : String :=
+  let rec outs : List (Option UOut) → Nat → List String
+    | [], _ => []
+    | none :: t, j => outs t (j + 1)
+    | some o :: t, j => s!"{j} {o.value} {Hex.encode o.pk}" :: outs t (j + 1)
+  " ".intercalate ([s!"ok {Hex.encode r.txid} {r.inBlock} {Proto.boolStr r.coinbase} {r.outs.length}"] ++ outs r.outs 0)
+
+def step1 (s : State) (toks : List String) : State × String :=
   let bad := (s, "bad-op")
   match toks with
   | ["reset"] => (State.init, "ok")
@@ -124,4 +148,61 @@ def step' (s : State) (toks : List String) : State × String :=
     | none => bad
   | _ => bad
 
-def main : IO Unit := Proto.serve State.init step'
+/-- node state + the static decoder buffers (package-level variables: they survive `reset`) -/
+def step' (ss : State × Static) (toks : List String) : (State × Static) × String :=
+  let (s, st) := ss
+  let bad := (ss, "bad-op")
+  match toks with
+  | "loadb" :: f :: mn :: um :: ab :: raws =>
+    match parserOf f, mn.toNat?, um.toNat?, ab.toNat?, raws.mapM Hex.decode with
+    | some P, some mn, some um, some ab, some raws =>
+      let tick : Nat → Bool := fun n => ab != 0 && n == ab
+      match loadFromUtxo P H tick s st raws mn um with
+      | none => (ss, "panic")
+      | some (s', st') => ((s', st'), if s'.on then "ok" else "aborted")
+    | _, _, _, _, _ => bad
+  | ["dsave", idx] =>
+    match idx.toNat? with
+    | some i =>
+      let recs := s.bal.filter (fun p => p.1.1 == i)
+      let one := fun (p : AKey × Bal) =>
+        let head := leBytes 8 p.1.2 ++ (writeVarInt (AmountCompress.compress p.2.value) ++
+          (if p.2.unsp.isEmpty then [] else writeVarInt p.2.unsp.length))
+        let ents := ((p.2.unsp.map (fun e => Hex.encode (encInp e))).toArray.qsort (· < ·)).toList
+        Hex.encode head ++ String.join ents
+      (ss, " ".intercalate (s!"{recs.length}" :: recs.map one))
+    | none => bad
+  | ["dload", um, idx, file] =>
+    match um.toNat?, idx.toNat?, Hex.decode file with
+    | some um, some i, some f =>
+      match loadPairs um f with
+      | none => (ss, "keep")
+      | some l =>
+        let one := fun (p : Nat × Option Bal) => match p.2 with
+          | none => s!"N {i} {p.1}"
+          | some b =>
+            let ents := b.unsp.map fun (key, v) => s!"{Hex.encode key}:{v}"
+            " ".intercalate ([s!"K {i} {p.1} {b.value} {Proto.boolStr b.isMap} {b.unsp.length}"] ++ ents)
+        (ss, " ".intercalate ("on 1" :: l.map one))
+    | _, _, _ => bad
+  | ["sdec", f, raw] =>
+    match parserOf f, Hex.decode raw with
+    | some P, some raw =>
+      match staticDec P raw st with
+      | .ok (r, st') => ((s, st'), urecStr r)
+      | _ => (ss, "panic")
+    | _, _ => bad
+  | ["pdec", f, raw] =>
+    match f, Hex.decode raw with
+    | "u", some raw => match UtxoRec.newRecU raw with
+      | .ok r => (ss, urecStr r)
+      | _ => (ss, "panic")
+    | "c", some raw => match UtxoRec.newRecC KO raw with
+      | .ok r => (ss, urecStr r)
+      | _ => (ss, "panic")
+    | _, _ => bad
+  | _ =>
+    let (s', rep) := step1 s toks
+    ((s', st), rep)
+
+def main : IO Unit := Proto.serve (State.init, Static.init 13107) step'
